@@ -168,7 +168,35 @@ func edit(t *simkit.Tape, seq *int, a dsch) dsch {
 	for i, n := 0, t.Range("edits", 1, 4); i < n; i++ {
 		ti := t.Draw("edit-table", len(b.Tables))
 		tb := &b.Tables[ti]
-		switch t.Draw("edit", 8) {
+		switch t.Draw("edit", 9) {
+		case 8:
+			// A column goes, and with it every index part and foreign key that uses it (an index whose
+			// columns are all dropped is dropped by the engine itself: some planners leave it out).
+			if ci := 1 + t.Draw("drop-col", len(tb.Cols)); ci < len(tb.Cols) {
+				name := tb.Cols[ci].Name
+				tb.Cols = append(tb.Cols[:ci:ci], tb.Cols[ci+1:]...)
+				var idx []didx
+				for _, ix := range tb.Idx {
+					var cols []string
+					for _, c := range ix.Cols {
+						if c != name {
+							cols = append(cols, c)
+						}
+					}
+					if len(cols) > 0 {
+						ix.Cols = cols
+						idx = append(idx, ix)
+					}
+				}
+				tb.Idx = idx
+				var fks []dfk
+				for _, f := range tb.FKs {
+					if f.Col != name {
+						fks = append(fks, f)
+					}
+				}
+				tb.FKs = fks
+			}
 		case 7:
 			// An existing column changes in one or more respects at once (the planners split such a
 			// change over several statements: a comment is a statement of its own in PostgreSQL).
